@@ -1,4 +1,349 @@
-/-! Backend: executable models (no Mathlib imports). -/
+import Solvor.Gen.Kernels
+/-!
+Backend (property C12): spec-level objects and `Bool` checkers for the observables of the nine
+functions that have a Rust back-end, models of the adapters' preprocessing / result conversion
+(`solvor/rust/adapters.py`), and small mirrors of the Rust BFS/DFS visit order.
+No Mathlib imports (this file is linked into `drv_backend`).
+
+Numbers: weights are `Int` (the harness draws dyadic rationals and sends them scaled), `∞` is
+`none`.  Nodes are `Nat`; a *valid* input has every endpoint `< n`.
+-/
 namespace Solvor.Backend
+open Solvor.Gen (Status)
+
+/-- weighted directed edge `(u, v, w)`; an edge list is a multigraph -/
+abbrev WEdge := Nat × Nat × Int
+
+/-! ### Spec objects -/
+
+/-- `Walk es u v x`: a directed walk from `u` to `v` using edges of `es` with total weight `x`. -/
+inductive Walk (es : List WEdge) : Nat → Nat → Int → Prop
+  | nil (u : Nat) : Walk es u u 0
+  | snoc {u v v' : Nat} {x w : Int} : Walk es u v x → (v, v', w) ∈ es → Walk es u v' (x + w)
+
+def Reach (es : List WEdge) (u v : Nat) : Prop := ∃ x, Walk es u v x
+
+/-- `IsDist es s v o`: `o` is *the* shortest-path distance from `s` to `v`
+(`none` = unreachable; `some x` = attained minimum over all walks). -/
+def IsDist (es : List WEdge) (s v : Nat) : Option Int → Prop
+  | some x => Walk es s v x ∧ ∀ y, Walk es s v y → x ≤ y
+  | none => ¬ Reach es s v
+
+/-- a negative closed walk through a node reachable from `s` -/
+def NegCycleFrom (es : List WEdge) (s : Nat) : Prop :=
+  ∃ c x, Reach es s c ∧ Walk es c c x ∧ x < 0
+
+/-- unit-weight view of an unweighted edge list (BFS hop distance = distance at unit weights) -/
+def unitW (es : List (Nat × Nat)) : List WEdge := es.map fun e => (e.1, e.2, 1)
+
+def rev (e : WEdge) : WEdge := (e.2.1, e.1, e.2.2)
+
+/-- what `directed=False` means in `solvor/floyd_warshall.py`, and the undirected reading of a
+graph in `kruskal`: every edge usable in both directions -/
+def symW (es : List WEdge) : List WEdge := es ++ es.map rev
+
+def validW (n : Nat) (es : List WEdge) : Bool := es.all fun e => decide (e.1 < n) && decide (e.2.1 < n)
+
+/-! ### Verified reachability (`reachB_iff` in Theorems) -/
+
+/-- add one new successor of the current set per unit of fuel; stops when the set is closed -/
+def reachGo (es : List WEdge) : Nat → List Nat → List Nat
+  | 0, R => R
+  | fuel + 1, R =>
+    match es.find? (fun e => R.contains e.1 && !R.contains e.2.1) with
+    | none => R
+    | some e => reachGo es fuel (e.2.1 :: R)
+
+/-- nodes reachable from `s`, most recently discovered first -/
+def reachList (n : Nat) (es : List WEdge) (s : Nat) : List Nat := reachGo es n [s]
+
+def reachB (n : Nat) (es : List WEdge) (s v : Nat) : Bool := (reachList n es s).contains v
+
+/-! ### Distances: potential + tree certificate -/
+
+def dAt (d : List (Option Int)) (v : Nat) : Option Int := d.getD v none
+
+/-- `d` is a feasible potential rooted at `s`: `d s = 0`, the finite part is closed under edges
+and `d v ≤ d u + w` on every edge -/
+def potOK (es : List WEdge) (s : Nat) (d : List (Option Int)) : Bool :=
+  dAt d s == some 0 &&
+  es.all fun e =>
+    match dAt d e.1 with
+    | none => true
+    | some a =>
+      match dAt d e.2.1 with
+      | none => false
+      | some b => decide (b ≤ a + e.2.2)
+
+/-- every finite `d v` (`v ≠ s`) has a tight incoming edge from a node of smaller level -/
+def treeOK (n : Nat) (es : List WEdge) (s : Nat) (d : List (Option Int)) (lvl : List Nat) : Bool :=
+  (List.range n).all fun v =>
+    match dAt d v with
+    | none => true
+    | some x =>
+      v == s || es.any fun e =>
+        e.2.1 == v && decide (lvl.getD e.1 0 < lvl.getD v 0) && dAt d e.1 == some (x - e.2.2)
+
+/-- verified checker for a single-source distance vector (`checkDist_sound`) -/
+def checkDist (n : Nat) (es : List WEdge) (s : Nat) (d : List (Option Int)) (lvl : List Nat) : Bool :=
+  d.length == n && validW n es && decide (s < n) && potOK es s d && treeOK n es s d lvl
+
+/-- untrusted certificate generator: discovery order in the tight-edge subgraph -/
+def mkLvl (n : Nat) (es : List WEdge) (s : Nat) (d : List (Option Int)) : List Nat :=
+  let tight := es.filter fun e =>
+    match dAt d e.1, dAt d e.2.1 with
+    | some a, some b => a + e.2.2 == b
+    | _, _ => false
+  let order := (reachList n tight s).reverse
+  (List.range n).map fun v => order.idxOf v
+
+/-- all-pairs matrix: row `i` is the distance vector from `i` -/
+def checkFw (n : Nat) (es : List WEdge) (M : List (List (Option Int))) (lvls : List (List Nat)) : Bool :=
+  M.length == n && (List.range n).all fun i => checkDist n es i (M.getD i []) (lvls.getD i [])
+
+/-! ### Paths as node lists -/
+
+/-- least weight among the parallel edges `u → v` -/
+def minEdgeW (es : List WEdge) (u v : Nat) : Option Int :=
+  es.foldl (fun acc e =>
+    if e.1 == u && e.2.1 == v then
+      match acc with
+      | none => some e.2.2
+      | some a => some (if e.2.2 < a then e.2.2 else a)
+    else acc) none
+
+/-- weight of the node walk `u :: rest` taking the cheapest parallel edge at each step;
+`none` when some consecutive pair is not joined by an edge -/
+def walkMinW (es : List WEdge) : Nat → List Nat → Option Int
+  | _, [] => some 0
+  | u, v :: rest =>
+    match minEdgeW es u v, walkMinW es v rest with
+    | some w, some x => some (w + x)
+    | _, _ => none
+
+def lastOf : Nat → List Nat → Nat
+  | u, [] => u
+  | _, v :: rest => lastOf v rest
+
+/-- the node list is a walk `s … t` of the graph whose cheapest realisation weighs `x` -/
+def pathOK (es : List WEdge) (s t : Nat) (p : List Nat) (x : Int) : Bool :=
+  match p with
+  | [] => false
+  | u :: rest => u == s && lastOf u rest == t && walkMinW es u rest == some x
+
+/-- outcome of a single-pair query -/
+inductive PairOut where
+  | found (path : List Nat) (obj : Int)
+  | infeasible
+  | unbounded
+  deriving Repr, DecidableEq
+
+/-- verified checker for `dijkstra_edges` / `bellman_ford` / `bfs_edges` with a target
+(`cert` = a potential for found/infeasible, a closed node walk for unbounded) -/
+def checkPair (n : Nat) (es : List WEdge) (s t : Nat) (o : PairOut)
+    (pot : List (Option Int)) (cyc : List Nat) : Bool :=
+  validW n es && decide (s < n) && decide (t < n) &&
+  match o with
+  | .found p x => potOK es s pot && dAt pot t == some x && pathOK es s t p x
+  | .infeasible => potOK es s pot && dAt pot t == none
+  | .unbounded =>
+    match cyc with
+    | [] => false
+    | c :: rest => reachB n es s c && !rest.isEmpty && lastOf c rest == c &&
+        (match walkMinW es c rest with | some x => decide (x < 0) | none => false)
+
+/-- negative-cycle certificate alone (status UNBOUNDED of `bellman_ford`) -/
+def checkNegCycle (n : Nat) (es : List WEdge) (s : Nat) (cyc : List Nat) : Bool :=
+  validW n es && decide (s < n) &&
+  match cyc with
+  | [] => false
+  | c :: rest => reachB n es s c && !rest.isEmpty && lastOf c rest == c &&
+      (match walkMinW es c rest with | some x => decide (x < 0) | none => false)
+
+/-- Floyd-Warshall's UNBOUNDED: a negative closed walk anywhere -/
+def checkFwNeg (n : Nat) (es : List WEdge) (cyc : List Nat) : Bool :=
+  match cyc with
+  | [] => false
+  | c :: _ => checkNegCycle n es c cyc
+
+/-! ### Reachability lists (bfs_edges / dfs_edges without target) and DFS paths -/
+
+/-- the documented value of the python back-end: the sorted list of reachable nodes -/
+def reachSorted (n : Nat) (es : List WEdge) (s : Nat) : List Nat :=
+  (List.range n).filter fun v => reachB n es s v
+
+def checkReachList (n : Nat) (es : List WEdge) (s : Nat) (xs : List Nat) : Bool :=
+  validW n es && decide (s < n) && xs == reachSorted n es s
+
+/-- same *set* (used to classify a failure, not to accept an output) -/
+def sameSet (xs ys : List Nat) : Bool := xs.all ys.contains && ys.all xs.contains
+
+/-- DFS with a target: any walk will do; INFEASIBLE exactly when unreachable -/
+def checkAnyPath (n : Nat) (es : List WEdge) (s t : Nat) (o : Option (List Nat)) : Bool :=
+  validW n es && decide (s < n) && decide (t < n) &&
+  match o with
+  | some p =>
+    (match p with
+     | [] => false
+     | u :: rest => u == s && lastOf u rest == t && (walkMinW es u rest).isSome)
+  | none => !reachB n es s t
+
+/-! ### Minimum spanning forests (kruskal) -/
+
+def weightOf (F : List WEdge) : Int := (F.map fun e => e.2.2).sum
+
+def sublists {α} : List α → List (List α)
+  | [] => [[]]
+  | a :: l => sublists l ++ (sublists l).map (a :: ·)
+
+/-- `F ⊆ es` (as a sub-multiset in input order), every edge of `F` is a bridge of `F`
+(so `F` is a forest) and `F` connects whatever `es` connects -/
+def isSpanningForest (n : Nat) (es F : List WEdge) : Bool :=
+  F.isSublist es &&
+  es.all (fun e => reachB n (symW F) e.1 e.2.1) &&
+  (List.range F.length).all fun i =>
+    match F[i]? with
+    | none => true
+    | some e => !reachB n (symW (F.eraseIdx i)) e.1 e.2.1
+
+def isMinForest (n : Nat) (es F : List WEdge) : Bool :=
+  isSpanningForest n es F &&
+  (sublists es).all fun G => decide (weightOf F ≤ weightOf G) || !isSpanningForest n es G
+
+def connectedB (n : Nat) (es : List WEdge) : Bool :=
+  (List.range n).all fun v => reachB n (symW es) 0 v
+
+/-- verified checker for a `kruskal` result: status, edge list (as a sublist of the input), objective -/
+def checkMst (n : Nat) (es : List WEdge) (allowForest : Bool) (st : Status) (F : Option (List WEdge))
+    (total : Option Int) : Bool :=
+  validW n es && decide (0 < n) &&
+  match st, F, total with
+  | .OPTIMAL, some F, some x => connectedB n es && isMinForest n es F && x == weightOf F
+  | .FEASIBLE, some F, some x => !connectedB n es && allowForest && isMinForest n es F && x == weightOf F
+  | .INFEASIBLE, none, none => !connectedB n es && !allowForest
+  | _, _, _ => false
+
+/-! ### Strongly connected components -/
+
+def mutualB (n : Nat) (es : List WEdge) (u v : Nat) : Bool := reachB n es u v && reachB n es v u
+
+/-- the mutual-reachability classes, each sorted, listed by least element -/
+def canonScc (n : Nat) (es : List WEdge) : List (List Nat) :=
+  (List.range n).filterMap fun v =>
+    let C := (List.range n).filter fun u => mutualB n es v u
+    if C.head? == some v then some C else none
+
+/-- `cs` is the implementation's partition with each class sorted and the classes sorted by
+first element (canonicalised by the harness) -/
+def checkScc (n : Nat) (es : List WEdge) (cs : List (List Nat)) : Bool :=
+  validW n es && cs == canonScc n es
+
+/-! ### Topological order -/
+
+def posOf (ord : List Nat) (v : Nat) : Nat := ord.idxOf v
+
+def checkTopoOrder (n : Nat) (es : List WEdge) (ord : List Nat) : Bool :=
+  validW n es && ord.length == n && (List.range n).all (fun v => ord.contains v) &&
+  es.all fun e => decide (posOf ord e.1 < posOf ord e.2.1)
+
+/-- INFEASIBLE certificate: some edge `u → v` with `v` reaching `u` -/
+def hasCycle (n : Nat) (es : List WEdge) : Bool :=
+  es.any fun e => reachB n es e.2.1 e.1
+
+def checkTopo (n : Nat) (es : List WEdge) (o : Option (List Nat)) : Bool :=
+  match o with
+  | some ord => checkTopoOrder n es ord
+  | none => validW n es && hasCycle n es
+
+/-! ### PageRank (exact, at `Rat`) -/
+
+def outCount (es : List (Nat × Nat)) (u : Nat) : Nat := (es.filter fun e => e.1 == u).length
+
+/-- one Jacobi step of `solvor/pagerank.py` / `rust/src/algorithms/pagerank.rs` at exact arithmetic:
+`new[v] = (1-d)/n + d·Σ_{(u,v)∈E} x[u]/out(u) + d·(Σ_{out(u)=0} x[u])/n` -/
+def prStep (n : Nat) (es : List (Nat × Nat)) (d : Rat) (x : List Rat) : List Rat :=
+  let dangling := ((List.range n).filter fun u => outCount es u == 0).map (fun u => x.getD u 0) |>.sum
+  (List.range n).map fun v =>
+    (1 - d) / n + d * ((es.filter fun e => e.2 == v).map (fun e => x.getD e.1 0 / outCount es e.1)).sum
+      + d * dangling / n
+
+/-- `x` is the PageRank vector: the fixed point of the step -/
+def isPrFixed (n : Nat) (es : List (Nat × Nat)) (d : Rat) (x : List Rat) : Bool :=
+  x.length == n && prStep n es d x == x
+
+def absR (q : Rat) : Rat := if q < 0 then -q else q
+
+/-- every entry of `xs` within `eps` of the corresponding entry of `ys` -/
+def within (xs ys : List Rat) (eps : Rat) : Bool :=
+  xs.length == ys.length && (xs.zip ys).all fun p => decide (absR (p.1 - p.2) ≤ eps)
+
+/-! ### Adapters (`solvor/rust/adapters.py`) -/
+
+/-- `_floyd_warshall_rust`, `directed=False`, as it is on the unchanged tree: a pair `(u,v)` that
+was already emitted is skipped, so the *first* weight seen for a pair wins -/
+def fwExpandFirst (es : List WEdge) : List WEdge :=
+  (es.foldl (fun (acc : List WEdge × List (Nat × Nat)) e =>
+    let (out, seen) := acc
+    let (out, seen) := if seen.contains (e.1, e.2.1) then (out, seen) else (out ++ [e], (e.1, e.2.1) :: seen)
+    if seen.contains (e.2.1, e.1) then (out, seen) else (out ++ [rev e], (e.2.1, e.1) :: seen))
+    ([], [])).1
+
+/-- the repaired expansion: both directions of every edge (the kernel takes the minimum) -/
+def fwExpand (es : List WEdge) : List WEdge := es.flatMap fun e => [e, rev e]
+
+def adapterFwEdges (directed : Bool) (es : List WEdge) : List WEdge := if directed then es else fwExpand es
+def pythonFwEdges (directed : Bool) (es : List WEdge) : List WEdge := if directed then es else symW es
+
+/-- `{i: d for i, d in enumerate(distances) if d != inf}` (both back-ends build the same dict) -/
+def distDict (d : List (Option Int)) : List (Nat × Int) :=
+  (d.zipIdx).filterMap fun p => p.1.map fun x => (p.2, x)
+
+/-- insertion into a sorted list / insertion sort: the `sorted(...)` of the repaired
+`_bfs_edges_rust` / `_dfs_edges_rust` and of `bfs_edges` -/
+def insertSorted (a : Nat) : List Nat → List Nat
+  | [] => [a]
+  | b :: l => if a ≤ b then a :: b :: l else b :: insertSorted a l
+def sortNat (l : List Nat) : List Nat := l.foldr insertSorted []
+
+/-- status of a found DFS path: python `dfs` says FEASIBLE ("a path, not necessarily shortest") -/
+def pyDfsFoundStatus : Status := .FEASIBLE
+def adapterDfsFoundStatusOld : Status := .OPTIMAL
+def adapterDfsFoundStatus : Status := .FEASIBLE
+
+/-- `kruskal` status from (#edges chosen, n, allow_forest) – python and adapter agree -/
+def pyKruskalStatus (k n : Nat) (allow : Bool) : Status :=
+  if k < n - 1 then (if allow then .FEASIBLE else .INFEASIBLE) else .OPTIMAL
+def adapterKruskalStatus (k n : Nat) (allow : Bool) : Status :=
+  let isConnected := k == n - 1
+  if !isConnected then (if allow then .FEASIBLE else .INFEASIBLE) else .OPTIMAL
+
+/-! ### Mirrors of the Rust traversal kernels (`rust/src/algorithms/bfs.rs`), visit order only -/
+
+def adjOf (es : List WEdge) (u : Nat) : List Nat := (es.filter fun e => e.1 == u).map fun e => e.2.1
+
+/-- `bfs(n, edges, source, None).visited_order` -/
+def rustBfsOrder (es : List WEdge) : Nat → List Nat → List Nat → List Nat → List Nat
+  | 0, _, _, out => out.reverse
+  | _, [], _, out => out.reverse
+  | fuel + 1, u :: queue, visited, out =>
+    let new := (adjOf es u).foldl (fun (acc : List Nat) v =>
+      if visited.contains v || acc.contains v then acc else acc ++ [v]) []
+    rustBfsOrder es fuel (queue ++ new) (new ++ visited) (u :: out)
+
+def rustBfs (n : Nat) (es : List WEdge) (s : Nat) : List Nat := rustBfsOrder es (n + 1) [s] [s] []
+
+/-- `dfs(n, edges, source, None).visited_order` (stack with lazy visited marking) -/
+def rustDfsOrder (es : List WEdge) : Nat → List Nat → List Nat → List Nat
+  | 0, _, out => out.reverse
+  | _, [], out => out.reverse
+  | fuel + 1, u :: stack, out =>
+    if out.contains u then rustDfsOrder es fuel stack out
+    else
+      -- neighbours pushed in reverse, so the first neighbour is on top
+      let push := (adjOf es u).filter fun v => !(v == u) && !out.contains v
+      rustDfsOrder es fuel (push ++ stack) (u :: out)
+
+def rustDfs (n : Nat) (es : List WEdge) (s : Nat) : List Nat :=
+  rustDfsOrder es (es.length + n + 1) [s] []
 
 end Solvor.Backend
